@@ -428,6 +428,27 @@ fn seqlines_adaptors(r: &seq_io::fasta::RefRecord, expected: &[Vec<u8>], fail: &
             if mk().len() != n {
                 fail(format!("len() = {} after {} front / {} back steps, {} items to come", mk().len(), k, kb, n));
             }
+            // from the back: rev().skip(s), and nth_back(j) with what it leaves behind
+            for s in 0..=n + 1 {
+                let got: Vec<&[u8]> = mk().rev().skip(s).collect();
+                let want: Vec<&[u8]> = rest.iter().rev().skip(s).cloned().collect();
+                if got != want {
+                    fail(format!("rev().skip({}) after {} front / {} back steps differs", s, k, kb));
+                }
+            }
+            for j in 0..=n + 1 {
+                let mut it = mk();
+                let got = it.nth_back(j);
+                let want = if j < n { Some(rest[n - 1 - j]) } else { None };
+                let left: Vec<&[u8]> = if j < n { rest[..n - 1 - j].to_vec() } else { vec![] };
+                if got != want || it.len() != left.len() {
+                    fail(format!("nth_back({}) after {} front / {} back steps: item or remaining length differs", j, k, kb));
+                }
+                let after: Vec<&[u8]> = it.collect();
+                if after != left {
+                    fail(format!("items left after nth_back({}) after {} front / {} back steps differ", j, k, kb));
+                }
+            }
             // shortcuts that an iterator may override must agree with stepping
             if mk().count() != n {
                 fail(format!("count() = {} after {} front / {} back steps, {} items to come", mk().count(), k, kb, n));
@@ -983,7 +1004,7 @@ pub fn c20(tier: Tier) -> i32 {
         Report {
             property: "C20".into(),
             tier: tier.name().into(),
-            rule: format!("every FASTA record with m = 0..{} sequence lines over the line menu {{x, empty, xy, x<CR>y}} x LF/CRLF x final terminator x followed by another record or not, obtained from a record set under 3 capacities: ALL 2^(m+2) sequences of next/next_back steps on seq_lines() with len()/size_hint() checked after every step, items, meeting ends, sticky end; adaptor menu (enumerate().rev(), rev().enumerate(), zip, skip(0..n+1), collect, rposition, len) on the iterator after every (front, back) prefix; RecordSetIter (both formats) size hint + fused, count(), last(), nth(j) and skip(j) for j = 0..len+1 with the state they leave behind, also on ONE set reused over all batches (plain loop; exact(3),exact(1),...; exact(2),(3),(1),...) at every (third) capacity so that later, smaller batches carry stale entries; RecordsIter / RecordsIntoIter end sticky incl. after an error (FASTQ defect family, {} files); records()/into_records() size_hint() before every one of 10 steps brackets the items still to come, skip(k), nth(k), count() against plain stepping on valid and invalid inputs and inputs with 1..4 leading/trailing blank lines (LF/CRLF), also with one transient source error at call 0..4 or two at calls a < b <= 6 (the end, once reported, stays reported), and with a source that pauses once (Ok(0)) at every offset and delivers afterwards", max_lines, fq.len()),
+            rule: format!("every FASTA record with m = 0..{} sequence lines over the line menu {{x, empty, xy, x<CR>y}} x LF/CRLF x final terminator x followed by another record or not, obtained from a record set under 3 capacities: ALL 2^(m+2) sequences of next/next_back steps on seq_lines() with len()/size_hint() checked after every step, items, meeting ends, sticky end; adaptor menu (enumerate().rev(), rev().enumerate(), zip, skip(0..n+1), rev().skip(0..n+1), nth_back(0..n+1) with what it leaves, collect, rposition, len) on the iterator after every (front, back) prefix; RecordSetIter (both formats) size hint + fused, count(), last(), nth(j) and skip(j) for j = 0..len+1 with the state they leave behind, also on ONE set reused over all batches (plain loop; exact(3),exact(1),...; exact(2),(3),(1),...) at every (third) capacity so that later, smaller batches carry stale entries; RecordsIter / RecordsIntoIter end sticky incl. after an error (FASTQ defect family, {} files); records()/into_records() size_hint() before every one of 10 steps brackets the items still to come, skip(k), nth(k), count() against plain stepping on valid and invalid inputs and inputs with 1..4 leading/trailing blank lines (LF/CRLF), also with one transient source error at call 0..4 or two at calls a < b <= 6 (the end, once reported, stays reported), and with a source that pauses once (Ok(0)) at every offset and delivers afterwards", max_lines, fq.len()),
             exhaustive: true,
             assumptions: vec!["line contents are drawn from a menu; the iterator logic depends only on the number of lines".into()],
             extra: json!({"states_note": "states = (record, consumed-front, consumed-back) triples; transitions = iterator steps executed"}),
